@@ -415,6 +415,25 @@ fn size_law_for(curve: Curve, gates: usize) -> usize {
     with_curve!(curve, G, size_law::<G>(k))
 }
 
+/// Hostile list counts: every single-bit value and its neighbours, values whose product
+/// with an element size (or shift by its log) wraps around 2^64 to something small, values
+/// that truncate to the honest count in a narrower integer type.
+fn hostile_counts(nl: u64, nr: u64, honest_len: u64) -> Vec<u64> {
+    let mut v = vec![0u64, 1, nl, nl + 1, nr, u64::MAX, u64::MAX - 1, honest_len, honest_len / 32, honest_len / 33 + 1];
+    for b in 0..64u32 {
+        let p = 1u64 << b;
+        v.extend([p, p.wrapping_sub(1), p.wrapping_add(nl), p.wrapping_add(nr), p | 1]);
+    }
+    for m in [8u128, 16, 32, 33, 48, 64, 65, 66, 96] {
+        let q = ((1u128 << 64) / m) as u64;
+        v.extend([q, q + 1, q.wrapping_add(nl), q + 1 + nl, q.wrapping_mul(2), q.wrapping_mul(3) + 1]);
+    }
+    for w in [8u32, 16, 31, 32, 48] {
+        v.extend([(1u64 << w) + nl, (3u64 << w) + nl, (u64::MAX << w) | nl]);
+    }
+    v
+}
+
 fn gen_bytes_case(seed: u64, i: u64) -> Case {
     let curve = CURVES[(i % 3) as usize];
     let mut rng = sub_rng(seed, "C08", i, "bytes");
@@ -450,7 +469,7 @@ fn gen_bytes_case(seed: u64, i: u64) -> Case {
             let nr = if chance(&mut rng, 1, 2) { nl } else { below(&mut rng, 9) };
             pf.l = (0..nl).map(|i| if chance(&mut rng, 1, 8) { G::zero() } else { kpoint::<G>(i as u64) }).collect();
             pf.r = (0..nr).map(|i| kpoint::<G>(50 + i as u64)).collect();
-            let counts = [0u64, 1, nl as u64, nl as u64 + 1, 1 << 20, 1 << 32, 1 << 63, u64::MAX, honest_len as u64];
+            let counts = hostile_counts(nl as u64, nr as u64, honest_len as u64);
             let (cl, cr) = match mode {
                 3 | 4 | 5 => (nl as u64, nr as u64),
                 6 => (*pick(&mut rng, &counts), nr as u64),
@@ -497,6 +516,10 @@ pub fn run(ctx: &Ctx) -> i32 {
     // the same shape grid against the crate built with the guard OFF (what users link)
     let mut stats = stats;
     let mut nohooks_cases = 0u64;
+    // (skipped in the guard-off leg of this check, which IS built against that crate configuration)
+    if off_leg() {
+        stats.probe("guard-off-build-exercised");
+    } else {
     match nohooks_run(&["grid", ctx.tier.name()]) {
         Some(lines) if lines.iter().any(|l| l.starts_with("DONE ")) => {
             for (li, l) in lines.iter().enumerate() {
@@ -517,6 +540,7 @@ pub fn run(ctx: &Ctx) -> i32 {
                 return 2;
             }
         }
+    }
     }
     finish(
         ctx,
